@@ -61,6 +61,7 @@ def generate(seed, tier):
     d = rw.randrange(1, max(2, Lmin // 16 + 1)) if law == "delay" else 0
     g = rw.choice([1.0, -1.0, 2.0, 0.5, -3.0, 1e-3, 1e3, round(rw.uniform(-10, 10), 3) or 1.0])
     cfg = SC.gen_config(rw, N, allow_custom=False, allow_band=True, allow_force=False, min_Lmin=Lmin)
+    cfg["layout"] = rw.choice(SC.LAYOUTS)      # how a two-channel record is handed over (2xN, its transposed view, a list of rows)
     cfg["Lmin"] = Lmin
     cfg["Jdes"] = rw.choice([3, 5, 8, 12])
     cfg["win"] = rw.choice(["kaiser", "kaiser", "hann", "np_kaiser", "bartlett"])
@@ -269,6 +270,19 @@ def _execute_stage(sc, out, buf, stage):
             continue
         out.observe(world, H, coh)
         views = [("compute", j, H[j], coh[j], XX[j], bool(guard_bins[j])) for j in range(nf)]
+        # the same estimate through its other public views: the alias tf, and magnitude cf with the phase in radians / degrees
+        for nm in ("tf", "cf_rad", "cf_deg"):
+            try:
+                if nm == "tf":
+                    H2 = np.asarray(res.tf)
+                else:
+                    ph = np.asarray(getattr(res, nm), dtype=np.float64)
+                    H2 = np.asarray(res.cf, dtype=np.float64) * np.exp(1j * (np.deg2rad(ph) if nm == "cf_deg" else ph))
+            except Exception as e:  # noqa: BLE001
+                out.violate("exception", f"backend={backend} view={nm}", f"world={world}: {type(e).__name__}: {str(e)[:160]}")
+                continue
+            if H2.shape == H.shape:
+                views += [(f"compute:{nm}", j, complex(H2[j]), coh[j], XX[j], bool(guard_bins[j])) for j in range(nf)]
         for j, rs in sing:
             # a single-bin result has its OWN segmentation: the reference model has to vouch for the law on that one
             gd = False
